@@ -7,6 +7,8 @@ import (
 	"net"
 	"strconv"
 	"strings"
+	"time"
+	"verif/harness/srv"
 
 	xmpp "gosrc.io/xmpp"
 	"verif/harness/tr"
@@ -29,6 +31,9 @@ type c20Scen struct {
 	Given *string `json:"given,omitempty"` // exact literal (replay)
 	H     string  `json:"h,omitempty"`
 	P     int     `json:"p,omitempty"`
+	// Connect > 0: a listener is opened on the loopback interface (its port replaces P) and every XMPP transport
+	// obtained is connected that many times; the address it would dial is observed again after each connection
+	Connect int `json:"connect,omitempty"`
 }
 
 func c20Hex(rng *rand.Rand) string { return strconv.FormatInt(int64(rng.Intn(0x10000)), 16) }
@@ -84,6 +89,30 @@ func c20Host(rng *rand.Rand, form string, v int) string {
 
 func c20Run(w *tr.Writer, tid int, s c20Scen) {
 	host, port := s.H, s.P
+	if s.Connect > 0 {
+		l, err := net.Listen("tcp", "127.0.0.1:0")
+		if err != nil {
+			return
+		}
+		defer l.Close()
+		port = l.Addr().(*net.TCPAddr).Port
+		go func() {
+			for {
+				c, err := l.Accept()
+				if err != nil {
+					return
+				}
+				go func(c net.Conn) {
+					defer c.Close()
+					c.SetDeadline(time.Now().Add(2 * time.Second))
+					buf := make([]byte, 4096)
+					c.Read(buf)
+					c.Write([]byte(srv.StreamHeader("c20")))
+					c.Read(buf)
+				}(c)
+			}
+		}()
+	}
 	given := ""
 	if s.Given != nil {
 		given = *s.Given
@@ -106,7 +135,10 @@ func c20Run(w *tr.Writer, tid int, s c20Scen) {
 			given += "/xmpp-websocket"
 		}
 	}
-	observe := func(via string, t xmpp.Transport, err error) {
+	var observeAgain func(via string, t xmpp.Transport)
+	var observe func(via string, t xmpp.Transport, err error)
+	observeAgain = func(via string, t xmpp.Transport) { observe(via, t, nil) }
+	observe = func(via string, t xmpp.Transport, err error) {
 		rec := tr.Rec{"ev": "addr", "tid": tid, "form": s.Form, "given": given, "givenport": port, "via": via,
 			"kind": "other", "addr": "", "splitok": false, "hosteq": false, "port": -1}
 		switch tt := t.(type) {
@@ -132,12 +164,22 @@ func c20Run(w *tr.Writer, tid int, s c20Scen) {
 			}
 		}
 		w.Emit(rec)
+		if tt, ok := t.(*xmpp.XMPPTransport); ok && s.Connect > 0 && !strings.HasPrefix(via, "after") {
+			for k := 1; k <= s.Connect; k++ {
+				_, cerr := tt.Connect()
+				observeAgain(fmt.Sprintf("after-connect-%d:%s:%v", k, via, cerr == nil), tt)
+				if cerr == nil {
+					tt.ReceivedStreamClose() // what the receive loop does when the server ends the stream: Close does not wait
+				}
+				tt.Close()
+			}
+		}
 	}
-	cfg := xmpp.TransportConfiguration{Address: given, Domain: "example.org"}
+	cfg := xmpp.TransportConfiguration{Address: given, Domain: "example.org", ConnectTimeout: 2}
 	if s.Form.Who == "client" {
 		observe("transport", xmpp.NewClientTransport(cfg), nil)
 		// the same address through the public constructor: what a Client built from it would dial
-		cl, err := xmpp.NewClient(&xmpp.Config{TransportConfiguration: xmpp.TransportConfiguration{Address: given}, Jid: "user@example.org/r",
+		cl, err := xmpp.NewClient(&xmpp.Config{TransportConfiguration: xmpp.TransportConfiguration{Address: given}, ConnectTimeout: 2, Jid: "user@example.org/r",
 			Credential: xmpp.Password("x")}, xmpp.NewRouter(), func(error) {})
 		if err == nil && cl != nil {
 			observe("newclient", xmpp.VerifClientTransport(cl), nil)
@@ -210,6 +252,16 @@ func runC20(args []string) error {
 				c.recordScen(tid, sc)
 				c20Run(w, tid, sc)
 			}
+		}
+	}
+	// live connections: the address must still be the given one after the transport has connected (a transport is
+	// reused for every reconnection); host names that resolve, IPv4 and IPv6 loopback literals
+	for _, who := range []string{"client", "component"} {
+		for _, hp := range [][2]string{{"dns", "localhost"}, {"ipv4", "127.0.0.1"}, {"dns", "LOCALHOST"}, {"dnsdot", "localhost."}} {
+			sc := c20Scen{Form: c20Form{Scheme: "none", Host: hp[0], Port: "given", Who: who}, H: hp[1], Connect: 2}
+			tid++
+			c.recordScen(tid, sc)
+			c20Run(w, tid, sc)
 		}
 	}
 	c.closeScen()
